@@ -40,7 +40,7 @@ from . import c09 as base
 from .c09 import (Monitor, make_ops, gen_terms, build_mpo, split_terms, dense_mpo, dense_mps, basis_charges,
                   admissible_charges, random_state, FAMILIES)
 
-LEAN_TARGETS = ["YProofs.Props.C10"]
+LEAN_TARGETS = ["YProofs.Props.C10", "YProofs.Props.C10Unitary"]
 LEVEL = "proof"
 TRANSLATORS = ["gen_consts"]
 DRIVER = "drv_c10"
